@@ -413,6 +413,10 @@ func (sel *Selection) endEdit(r NodeRequest, bubble bool) error {
 }
 
 func (sel *Selection) Delete() (err error) {
+	if sel.parent == nil {
+		// nobody holds the root of a browser: there is no node to ask for the deletion
+		return fmt.Errorf("%w. cannot delete the root selection", fc.BadRequestError)
+	}
 
 	// allow children to recieve indication their parent is being deleted by
 	// sending node request w/delete=true
